@@ -14,6 +14,7 @@ EXPLANATION = ("Q1 the transition relation of the start/next/finish shims, obtai
                "push every entry in order + finish; EntriesOnly drops intermediates, collects referral URIs, passes everything else.")
 TRUSTED = ['the adapter chain is entered through these shims only (fields are private: witness crate)', 'tokio mpsc FIFO']
 UNDECIDED = ['what the server sent (C01 carries it to the channel)', 'user-defined adapters']
+SHARED = [('C01', ('R3.controls', 'R3.protocol-op', 'R4.'), 'Q6.driver-forwards-the-message')]      # what the stream yields is what the driver put into its channel: the decoded protocolOp and control list, classified by tag number
 ASSUMPTIONS = ['adapters called through the chain are summarised as opaque calls whose result is classified Err / Ok(None) / other']
 
 STATES = ['Fresh', 'Active', 'Done', 'Closed', 'Error']
@@ -351,6 +352,36 @@ def run(ctx):
                 and not [e for e in o.st.ev if e[0] == 'store' and e[1] == ('field', res, 'refs')]
     ctx.add('Q4.entries-only.finish-merges-refs', EF.path, loc(EF.root), okf, 'EntriesOnly::finish does not append the collected referral URIs to the upstream result')
 
+    # an adapter instance outlives one search (the chain is cloneable and a running stream hands out clones of its adapters for a
+    # follow-up search): the referrals reported for a search are those received for it only if the accumulator is empty when the
+    # search starts - on every path of EntriesOnly::start that reaches the upstream start()
+    ES = hirq.Body(f, f.body(EN + 'start'))
+    ctx.analysed['bodies'].add(ES.path)
+    outs = absx.Interp(f, ES).run(root=inner_async_body(ES.root))
+    REFS = ('field', SELF, 'refs')
+    def empties(e):
+        if e[0] == 'call' and e[2] and e[2][0] == REFS:
+            m = e[1].rsplit('::', 1)[-1]
+            if m == 'clear' or e[1] == 'core::mem::take' or (m == 'truncate' and e[2][1:] == (('lit', 0),)) or (m == 'drain' and 'RangeFull' in absx.fmt(e[2][1:])):
+                return True
+            if e[1] == 'core::mem::replace' and len(e[2]) > 1 and is_empty_vec(e[2][1]):
+                return True
+        return e[0] == 'store' and e[1] == REFS and is_empty_vec(e[2])
+    n_up = 0
+    for o in outs:
+        ups = [i for i, e in enumerate(o.st.ev) if e[0] == 'call' and e[1].endswith('::start') and 'SearchStream' in e[1]]
+        if not ups:
+            continue
+        n_up += 1
+        ok = any(empties(e) for e in o.st.ev[:ups[0]])
+        ctx.add('Q4.entries-only.start-with-no-referrals', '%s|%s' % (o.kind, absx.fmt(o.val)[:30]), loc(ES.root), ok,
+                'EntriesOnly::start reaches the upstream start() without emptying the collected referral list: an adapter instance that '
+                'already served (or was cloned from one serving) another search reports that search\'s referrals in this one\'s result')
+    ctx.floor('Q4', 'paths of EntriesOnly::start reaching the upstream start()', n_up, 1)
+
+
+def is_empty_vec(v):
+    return v == ('vec', ()) or v[0] == 'default' or (v[0] == 'call' and v[1].rsplit('::', 1)[-1] in ('new', 'default', 'with_capacity') and 'Vec' in v[1])
 
 def inner_async_body(root):
     """async_trait methods: fn body = Box::pin(async move { ... }); plain async fn: Closure at the root."""
